@@ -39,6 +39,16 @@ Print Assumptions C17_exclusive.
 
 (* The buffers of an unreleased handle hold, at every moment, exactly the
    garbling that Garble wrote for it. *)
+(* "Until it is released" includes NEVER released: a handle on which Release is
+   not called is live for ever in the model — there is no step that returns its
+   scratch to the pool behind the caller's back (no finalizer, no cleanup), so
+   its tables stay what Garble wrote whatever later Garble calls do.  Harness
+   c17 ties this: a garbling whose handle is dropped without Release (only
+   g.Wires / g.Gates are kept), garbage collections and finalizer runs, more
+   Garble calls on the same circuit, and only then the evaluation of the
+   retained tables (key c17:unreleased-garbling:invalidated-after-gc); the
+   source inventory records runtime.SetFinalizer / AddCleanup / weak pointers in
+   package circuit (expected: none). *)
 Theorem C17_valid_until_release :
   forall (progs : list (list op)) (sched : list sitem) (t h : nat),
     let st := run_from (init progs) sched in
